@@ -234,6 +234,10 @@ func (rt *runtime) convertNumeric(v Value, t reflect.Type) reflect.Value {
 
 			return val.Convert(t)
 		case reflect.Int, reflect.Int8, reflect.Int16, reflect.Int32, reflect.Int64, reflect.Uint, reflect.Uint8, reflect.Uint16, reflect.Uint32, reflect.Uint64:
+			if f64 >= 1<<63 && f64 < 1<<64 && (t.Kind() == reflect.Uint64 || t.Kind() == reflect.Uint && t.Bits() == 64) {
+				// integral by construction (>= 2^63): representable in uint64 but not in int64
+				return reflect.ValueOf(uint64(f64)).Convert(t)
+			}
 			i64 := int64(f64)
 			if float64(i64) != f64 {
 				panic(rt.panicRangeError(fmt.Sprintf("converting %v to %v would cause loss of precision", val.Type(), t)))
